@@ -741,6 +741,27 @@ def run(ctx):
             ctx.count("bank:degenerate-range-skipped")
             continue
         ctx.count("bank:%s:%s" % (cfg["cls"], cfg["scale"]["name"]))
+        if ctx.rng.random() < 0.5:
+            # a sibling bank built just before, in the same process, from the same arguments except one (another
+            # sampling rate, another number of filters, another lower edge): a bank's layout depends on its OWN arguments
+            sib = dict(cfg)
+            which = ctx.rng.choice(["rate", "rate", "n", "low"])
+            if which == "rate":
+                sib["rate"] = ctx.rng.choice([r_ for r_ in RATES if r_ != cfg["rate"]])
+            elif which == "n":
+                sib["n"] = cfg["n"] + ctx.rng.choice([1, 2])
+            else:
+                sib["low"] = cfg["low"] + 7.5
+            try:
+                with warnings.catch_warnings():
+                    warnings.simplefilter("ignore")
+                    sb = build(F, sib)
+                    sb.centers_hz, sb.supports_hz
+                    sb.get_frequency_response(0, 64)
+                ctx.count("bank:sibling-built-before:" + which)
+                cfg["built_just_before"] = {which: sib[which]}
+            except Exception:  # noqa: BLE001
+                pass
         bank = check_bank(ctx, F, S, np, cfg, bad, deep=True)
         if bank is not None and j < ncert and ok_gen:
             try:
@@ -755,6 +776,19 @@ def run(ctx):
             cfg.update(order=order, mc=mc, l2=True, erb=bool(order % 2), n=5, low=20.0, high=None, scale=scale_of(ctx, "mel", 20.0))
             if is_valid(cfg):
                 ctx.count("bank:corner-gammatone-order%d" % order)
+                check_bank(ctx, F, S, np, cfg, bad, deep=True)
+    # every class on every scale from the scale's lowest usable edge (0 Hz; the octave scale's own low_hz): the scales'
+    # end corrections (e.g. Bark is negative below ~13 Hz) must carry over to the layout
+    for cls in classes:
+        for sname in scales:
+            if cls == "fbank" and sname != "mel":
+                continue
+            cfg = gen_config(ctx, cls=cls, scale=sname)
+            if sname != "octave":
+                cfg.update(low=0.0, scale=scale_of(ctx, sname, 0.0))
+            cfg.update(high=None)
+            if is_valid(cfg):
+                ctx.count("bank:corner-lowest-edge:%s" % sname)
                 check_bank(ctx, F, S, np, cfg, bad, deep=True)
     ctx.log("searched %d banks, %d certification goals so far" % (nb, len(G.items)))
     # ---- range test
@@ -915,6 +949,18 @@ def replay(ctx, rp):
         return 1 if (must_reject(g) and out != "reject") else 0
     if "config" in inp:
         cfg = _unshort(inp["config"])
+        before = cfg.pop("built_just_before", None)
+        if before:
+            # the recorded history: a sibling bank was built in the same process just before this one
+            sib = dict(cfg)
+            sib.update(before)
+            try:
+                sb = build(F, sib)
+                sb.centers_hz, sb.supports_hz
+                sb.get_frequency_response(0, 64)
+                print("built first: the same bank with", before)
+            except Exception as e:  # noqa: BLE001
+                print("sibling could not be built:", e)
         bank = check_bank(ctx, F, S, np, cfg, bad, deep=False)
         n = cfg["n"]
         if bank is not None:
